@@ -42,6 +42,23 @@ pub fn print_expr(e: &LogicalExpr) -> String {
     }
 }
 
+/// the "twin" of an expression: every `Iff` becomes `Xor` and vice versa, the branches of every
+/// `Ite` are exchanged — compiled on the SAME builders right after the expression, so that the
+/// applications of the twin meet the cache entries (standard triples, complemented choices)
+/// the expression left behind
+pub fn twin_expr(e: &LogicalExpr) -> LogicalExpr {
+    let t = |x: &LogicalExpr| Box::new(twin_expr(x));
+    match e {
+        LogicalExpr::Literal(x, p) => LogicalExpr::Literal(*x, *p),
+        LogicalExpr::Not(a) => LogicalExpr::Not(t(a)),
+        LogicalExpr::And(a, b) => LogicalExpr::And(t(a), t(b)),
+        LogicalExpr::Or(a, b) => LogicalExpr::Or(t(a), t(b)),
+        LogicalExpr::Iff(a, b) => LogicalExpr::Xor(t(a), t(b)),
+        LogicalExpr::Xor(a, b) => LogicalExpr::Iff(t(a), t(b)),
+        LogicalExpr::Ite { guard, thn, els } => LogicalExpr::Ite { guard: t(guard), thn: t(els), els: t(thn) },
+    }
+}
+
 fn sdd_tt(p: SddPtr, n: usize) -> String {
     (0..(1usize << n))
         .map(|a| {
@@ -109,6 +126,12 @@ pub fn comp_line(rng: &mut Rng, maxvars: usize) -> String {
         let sb = CompressionSddBuilder::new(vt.to_vtree());
         let s1 = sb.compile_cnf(&cnf);
         let s2 = sb.compile_logical_expr(&e);
+        // the twin and then the expression again, on the same SDD builder and the same BDD builder
+        let e2 = twin_expr(&e);
+        let s2t = sb.compile_logical_expr(&e2);
+        let s2b = sb.compile_logical_expr(&e);
+        let ext = b.compile_logical_expr(&e2);
+        let exb = b.compile_logical_expr(&e);
         let s3 = if cnf.clauses().is_empty() {
             "skipped".to_string()
         } else {
@@ -124,7 +147,7 @@ pub fn comp_line(rng: &mut Rng, maxvars: usize) -> String {
             _ => "skipped".to_string(),
         };
         format!(
-            "cnf={} wa={} cc={} expr={} plan={} scnf={} sexpr={} splan={} sctt={} sett={} dsdd={}",
+            "cnf={} wa={} cc={} expr={} plan={} scnf={} sexpr={} splan={} sctt={} sett={} dsdd={} twin={} etw={} eagain={} stw={} sagain={}",
             bdd_raw_string(c1),
             bdd_raw_string(wa),
             bdd_raw_string(cc),
@@ -135,7 +158,12 @@ pub fn comp_line(rng: &mut Rng, maxvars: usize) -> String {
             s3,
             sdd_tt(s1, n),
             sdd_tt(s2, n),
-            dsdd
+            dsdd,
+            print_expr(&e2),
+            bdd_raw_string(ext),
+            bdd_raw_string(exb),
+            sdd_tt(s2t, n),
+            sdd_canon(s2b, false)
         )
     });
     format!("{} => {}", head, r.unwrap_or_else(|e| e))
